@@ -77,17 +77,56 @@ def ds_code(obs, name):
     return (obs.get("dsids") or {}).get(name, 99)
 
 
+def write_ticks(case):
+    """logical time after every write op, by op index; a race op is two writes (writer 2, then writer 1):
+    (index, "pre") = the tick before it, (index, "mid") = between the two"""
+    t = 0
+    ticks = {}
+    for i, op in enumerate(case["ops"]):
+        if op["op"] in ("batch", "txn"):
+            t += 1
+            ticks[i] = t
+        elif op["op"] == "race":
+            ticks[(i, "pre")] = t
+            ticks[(i, "mid")] = t + 1
+            t += 2
+            ticks[i] = t
+    return ticks
+
+
+def at_tick(ticks, at):
+    if at.get("phase"):
+        return ticks.get((at["after_op"], at["phase"]), 0)
+    return ticks.get(at["after_op"], 0)
+
+
 def time_ticks(case, obs):
-    """raw commit time -> tick of the write op"""
-    ticks = sc.write_ticks(case)
+    """raw commit time -> tick of the write.  The two commits of a race op get their ticks in the order of their
+    TIMES (the model's histories have commit order = time order; an implementation that commits later with an older
+    timestamp then shows up as a difference in the keys and in every query)"""
+    ticks = write_ticks(case)
     m = {}
     seen = 0
     for i, op in enumerate(case["ops"]):
-        if i in ticks and i < len(obs.get("ops", [])):
-            t = obs["ops"][i].get("time", 0)
+        if i >= len(obs.get("ops", [])):
+            continue
+        oo = obs["ops"][i]
+        if op["op"] in ("batch", "txn"):
+            t = oo.get("time", 0)
             if t > seen:
                 m[t] = ticks[i]
                 seen = t
+        elif op["op"] == "race":
+            t2, t1 = oo.get("time2", 0), oo.get("time1", 0)
+            if t2 and t1:
+                lo, hi = sorted([t1, t2])
+                m.setdefault(lo, ticks[i] - 1)
+                m.setdefault(hi, ticks[i])
+            elif t2:
+                m.setdefault(t2, ticks[i] - 1)
+            elif t1:
+                m.setdefault(t1, ticks[i])
+            seen = max(seen, t1, t2)
     return m
 
 
@@ -108,7 +147,7 @@ def term(c, o):
 def _term(c, o):
     codes = IdCodes(o)
     ns = o.get("ns") or {}
-    ticks = sc.write_ticks(c)
+    ticks = write_ticks(c)
     tmap = time_ticks(c, o)
     user_ds = set((o.get("dsids") or {}).values())
     dss = vlib.coq_list([str(ds_code(o, d)) for d in c["datasets"] if d in (o.get("dsids") or {})])
@@ -134,6 +173,16 @@ def _term(c, o):
             terms.append("QWrite (WTxn %s)" % vlib.coq_list(sets))
             if bad:
                 terms.append("QRelated [] 0 false [] 0 [] %s" % BAD_PAGES)
+        elif k == "race":
+            lens = list(oo.get("lens") or [0] * (len(op["ents"]) + len(op["second"])))
+            l1, l2 = lens[:len(op["ents"])], lens[len(op["ents"]):]
+            dsc = ds_code(o, op["ds"])
+            # sequential outcome: writer 2 (a batch), then writer 1
+            terms.append("QWrite (WBatch %d %s)" % (dsc, vlib.coq_list([sc.ent_term(codes, e, l) for e, l in zip(op["second"], l2)])))
+            first = vlib.coq_list([sc.ent_term(codes, e, l) for e, l in zip(op["ents"], l1)])
+            terms.append(("QWrite (WTxn [(%d, %s)])" if op.get("first_txn") else "QWrite (WBatch %d %s)") % (dsc, first))
+            if bad:
+                terms.append("QRelated [] 0 false [] 0 [] %s" % BAD_PAGES)
         elif k == "refkeys":
             ok = [x for x in (oo.get("outkeys") or []) if x[5] in user_ds]
             ik = [x for x in (oo.get("inkeys") or []) if x[5] in user_ds]
@@ -145,7 +194,7 @@ def _term(c, o):
         elif k == "related":
             at = NOW
             if op.get("at"):
-                at = ticks.get(op["at"]["after_op"], 0)
+                at = at_tick(ticks, op["at"])
             pred = 0 if op["pred"] == "*" else codes.ucode(sc.expand(op["pred"]))
             starts = vlib.coq_list([str(codes.ucode(sc.expand(s))) for s in op["starts"]])
             req = vlib.coq_list([str(ds_code(o, d)) for d in op.get("datasets", [])])
@@ -172,18 +221,28 @@ def ent(i, refs=None, deleted=False, props=None):
     return e
 
 
-def q(starts, pred="*", inverse=False, datasets=None, limits=(0,), at=None, exact=False):
+def q(starts, pred="*", inverse=False, datasets=None, limits=(0,), at=None, exact=False, phase=None):
     op = {"op": "related", "starts": [U(s) for s in starts], "pred": pred if pred == "*" else U(pred), "inverse": inverse,
           "limits": list(limits)}
     if datasets:
         op["datasets"] = list(datasets)
     if at is not None:
         op["at"] = {"after_op": at, "exact": bool(exact)}
+        if phase:
+            op["at"]["phase"] = phase
     return op
 
 
 def B(ds, *ents):
     return {"op": "batch", "ds": ds, "ents": list(ents)}
+
+
+def R(ds, first, second, txn=True):
+    """forced schedule: writer 1 (a transaction if txn) waits for the dataset lock while writer 2 commits; outcome = second, then first"""
+    op = {"op": "race", "ds": ds, "ents": list(first), "second": list(second)}
+    if txn:
+        op["first_txn"] = True
+    return op
 
 
 KEYS = {"op": "refkeys"}
@@ -211,6 +270,12 @@ def witness_cases():
         {"datasets": DSN, "ops": [B("a", ent("e1", {"r2": "e4"})), B("b", ent("e1", {"r2": "e4"})), B("a", ent("e1", {}, True)),
                                   B("b", ent("e1", {})), B("a", ent("e2", {"r1": "e4"})), KEYS,
                                   q(["e4"], inverse=True), q(["e1"]), q(["e4"], inverse=True, limits=[1])]},
+        # a transaction queued behind a batch of the same dataset: commit order must be time order (second, then first)
+        {"datasets": DSN, "ops": [B("a", ent("e1", {"r1": "e2"})), R("a", [ent("e1", {"r1": "e4"})], [ent("e1", {"r1": "e3"})]), KEYS,
+                                  q(["e1"]), q(["e3"], inverse=True), q(["e4"], inverse=True), q(["e1"], at=1, phase="pre"),
+                                  q(["e1"], at=1, phase="mid"), q(["e3"], inverse=True, at=1, phase="mid"),
+                                  R("a", [ent("e1", {}, True)], [ent("e1", {"r2": ["e2", "e3"]})], txn=False), KEYS,
+                                  q(["e1"]), q(["e2"], inverse=True), q(["e1"], at=9, phase="mid")]},
         # delete / un-delete inside a batch and across batches, several datasets with different delete states
         {"datasets": DSN, "ops": [B("a", ent("e1", {"r1": "e2"}), ent("e1", {"r1": "e2"}, True), ent("e1", {"r1": ["e2", "e3"]})),
                                   B("b", ent("e1", {"r1": "e2"}, True)), B("b", ent("e1", {"r2": "e3"})), B("a", ent("e1", {}, True)), KEYS,
@@ -288,6 +353,22 @@ def gen_history(rng, nw):
             for s in sets:
                 posted.update(e["id"] for e in s["ents"])
             continue
+        if rng.chance(1, 6):
+            # two writers racing for one dataset, both (usually) touching the same entity with different references
+            d = rng.choice(DSN)
+            i = rng.choice(IDS[:3])
+            second = [gen_ent(rng, i, (d, i), memo)]
+            first = [gen_ent(rng, i if rng.chance(3, 4) else rng.choice(IDS[:3]), None, {})]
+            first[0] = ent(first[0]["id"], gen_refs(rng) or {"r1": rng.choice(IDS[1:])}, rng.chance(1, 6), first[0]["props"])
+            memo[(d, first[0]["id"])] = first[0]
+            if rng.chance(1, 3):
+                j = rng.choice(IDS[:3])
+                second.append(gen_ent(rng, j, (d, j), memo) if j != first[0]["id"] else ent(j, gen_refs(rng)))
+                if j == first[0]["id"]:
+                    memo[(d, j)] = first[0]
+            ops.append(R(d, first, second, txn=rng.chance(2, 3)))
+            posted.update(e["id"] for e in first + second)
+            continue
         d = rng.choice(DSN)
         ents = []
         for _ in range(rng.choice([1, 1, 2, 2, 3])):
@@ -328,7 +409,12 @@ def gen_case(rng, nw, nq, full=False):
     else:
         qs = [rng.choice(allq) for _ in range(nq)]
     # multi-start queries (limit accounting) and queries pinned to earlier instants
-    widx = [i for i, op in enumerate(ops) if op["op"] in ("batch", "txn")]
+    widx = [i for i, op in enumerate(ops) if op["op"] in ("batch", "txn", "race")]
+    for i in widx:
+        if ops[i]["op"] == "race":      # instants taken while the first writer waits for the lock
+            for ph in ("pre", "mid"):
+                qs.append(q([rng.choice(IDS)], rng.choice(["*"] + PREDS), rng.chance(1, 2), rng.choice(SCOPES[:4]),
+                            [rng.choice([0, 1, 2])], at=i, phase=ph))
     for _ in range(max(2, nq // 6)):
         starts = list(IDS)
         rng.shuffle(starts)
@@ -363,7 +449,16 @@ def predict_text(c, o):
 
 
 def _hist(c):
-    return [op for op in c["ops"] if op["op"] in ("batch", "txn")]
+    return [op for op in c["ops"] if op["op"] in ("batch", "txn", "race")]
+
+
+def _sets(op):
+    """(dataset, entities) groups of a write op"""
+    if op["op"] == "batch":
+        return [(op["ds"], op["ents"])]
+    if op["op"] == "race":
+        return [(op["ds"], op["second"]), (op["ds"], op["ents"])]
+    return [(s["ds"], s["ents"]) for s in op["sets"]]
 
 
 _SEEN = {}      # case JSON -> (case, obs), filled by term()
@@ -426,13 +521,15 @@ def size(c):
 def classify(c, o):
     dsets = set()
     for op in _hist(c):
-        for s in ([op] if op["op"] == "batch" else op["sets"]):
-            ids = [e["id"] for e in s["ents"]]
+        for d, es in _sets(op):
+            ids = [e["id"] for e in es]
             if len(ids) != len(set(ids)):
                 return "in-batch-repeat"
-            dsets.add(s["ds"])
-            if any(e.get("deleted") for e in s["ents"]):
+            dsets.add(d)
+            if any(e.get("deleted") for e in es):
                 return "delete"
+        if op["op"] == "race":
+            return "race"
     if len(dsets) > 1:
         return "multi-dataset"
     return None
@@ -444,6 +541,8 @@ def tags(c, o):
     t.append("queries=%d" % (len(nq) // 10 * 10))
     if any(op["op"] == "txn" for op in c["ops"]):
         t.append("has-txn")
+    if any(op["op"] == "race" for op in c["ops"]):
+        t.append("has-race")
     if any(op.get("inverse") for op in nq):
         t.append("has-incoming")
     if any(op.get("at") for op in nq):
